@@ -126,6 +126,11 @@ var validTempls = []string{
 	"package p\n\ntempl T(s string) {\n\t<p>{ s }</p>\n}\n",
 	"package p\n",
 	"package p\n\ntempl A() {\n\t<a href=\"/x\">b</a>\n}\n\ntempl B() {\n\t@A()\n}\n",
+	// documents the formatter changes: it adds lines, removes lines, re-indents
+	"package p\n\ntempl T() {\n<div>a</div><div>b</div><p>c</p>\n}\n",
+	"package p\n\n\n\n\ntempl T() {\n\n\n\t<div>a</div>\n\n\n}\n\n\n",
+	"package p\n\ntempl T() {\n        <div>\n<span>x</span>\n   </div>\n}",
+	"package p\n\ntempl T(a bool) {\n\tif a { <b>y</b> } else { <i>n</i> }\n}\n",
 }
 
 // brokenTempls are buffers as an editor restores them in the middle of an edit: the parser
@@ -312,6 +317,12 @@ func run(rc *kernel.RunCtx, k *kernel.Kernel) map[string]any {
 	diagnostics := 0
 	nreq := 0
 	var outstanding []string
+	// formatting requests whose answer the editor is waiting for: document and its version then
+	type fmtReq struct {
+		d       *docState
+		version int
+	}
+	pendingFormat := map[string]fmtReq{}
 
 	send := func(method string, params any) {
 		ioS.Feed(simnet.EncodeFrame(map[string]any{"jsonrpc": "2.0", "method": method, "params": params}))
@@ -366,6 +377,59 @@ func run(rc *kernel.RunCtx, k *kernel.Kernel) map[string]any {
 		k.Action("editor: didClose")
 		send("textDocument/didClose", map[string]any{"textDocument": map[string]any{"uri": d.uri}})
 	}
+	// The editor applies the edits of a formatting answer if the document has not changed since it
+	// asked, and tells the server about the change it made, like about any other change.
+	applyFormatting := func(fd *docState, version int, result any) {
+		edits, _ := result.([]any)
+		if !fd.open || fd.version != version || len(edits) == 0 {
+			k.Count("formatting_answers_not_applied", 1)
+			return
+		}
+		var cs []any
+		var desc []string
+		for _, e := range edits {
+			m, _ := e.(map[string]any)
+			r, _ := m["range"].(map[string]any)
+			st, _ := r["start"].(map[string]any)
+			en, _ := r["end"].(map[string]any)
+			num := func(x any) int { f, _ := x.(float64); return int(f) }
+			c := change{HasRange: true, SL: num(st["line"]), SC: num(st["character"]), EL: num(en["line"]), EC: num(en["character"])}
+			c.Text, _ = m["newText"].(string)
+			before := fd.ref
+			fd.ref = applyRef(fd.ref, c)
+			switch t.Choose(3, "formatting-echo-shape") {
+			case 0: // the range as the server gave it
+			case 1: // the range as the editor validated it against its document (clamped to its end)
+				lines := strings.Split(before, "\n")
+				if c.EL >= len(lines) {
+					c.EL, c.EC = len(lines)-1, len(lines[len(lines)-1])
+				}
+			case 2: // an editor that syncs whole documents
+				c = change{Text: fd.ref}
+			}
+			cs = append(cs, c.wire())
+			desc = append(desc, c.String())
+		}
+		fd.version++
+		history = append(history, "formatting applied "+fd.uri[len(fd.uri)-7:]+" "+strings.Join(desc, "; "))
+		k.Action("editor: applies formatting, didChange " + strings.Join(desc, "; "))
+		send("textDocument/didChange", map[string]any{"textDocument": map[string]any{"uri": fd.uri, "version": fd.version}, "contentChanges": cs})
+		k.Count("formatting_answers_applied", 1)
+		save := d
+		d = fd
+		noteGo()
+		d = save
+	}
+	doFormat := func() {
+		nreq++
+		id := fmt.Sprintf("f%d", nreq)
+		outstanding = append(outstanding, id)
+		pendingFormat[id] = fmtReq{d, d.version}
+		history = append(history, "formatting request "+id+" "+d.uri[len(d.uri)-7:])
+		k.Action("editor: textDocument/formatting " + id)
+		ioS.Feed(simnet.EncodeFrame(map[string]any{"jsonrpc": "2.0", "id": id, "method": "textDocument/formatting", "params": map[string]any{"textDocument": map[string]any{"uri": d.uri}, "options": map[string]any{"tabSize": 4, "insertSpaces": false}}}))
+		k.Count("formatting_requests_sent", 1)
+	}
 	collect := func() {
 		b := ioS.Drain()
 		if len(b) == 0 {
@@ -383,6 +447,10 @@ func run(rc *kernel.RunCtx, k *kernel.Kernel) map[string]any {
 				diagnostics++
 			}
 			if id, ok := f.JSON["id"].(string); ok && f.JSON["method"] == nil {
+				if fr, isFmt := pendingFormat[id]; isFmt {
+					delete(pendingFormat, id)
+					applyFormatting(fr.d, fr.version, f.JSON["result"])
+				}
 				for i, o := range outstanding {
 					if o == id {
 						outstanding = append(outstanding[:i], outstanding[i+1:]...)
@@ -406,6 +474,7 @@ func run(rc *kernel.RunCtx, k *kernel.Kernel) map[string]any {
 		i := t.Choose(len(outstanding), "cancel-which")
 		id := outstanding[i]
 		outstanding = append(outstanding[:i], outstanding[i+1:]...)
+		delete(pendingFormat, id) // the editor ignores a late answer to a request it cancelled
 		history = append(history, "cancel "+id)
 		k.Action("editor: $/cancelRequest " + id)
 		send("$/cancelRequest", map[string]any{"id": id})
@@ -421,6 +490,9 @@ func run(rc *kernel.RunCtx, k *kernel.Kernel) map[string]any {
 		collect()
 		if rc.Failed() {
 			return
+		}
+		if ioS.Avail() > 0 {
+			return // an answer just made the editor send something: the server has not seen it yet
 		}
 		checks++
 		for _, d := range docs {
@@ -513,6 +585,8 @@ func run(rc *kernel.RunCtx, k *kernel.Kernel) map[string]any {
 					doClose()
 				case t.Chance(1, 6, "request"):
 					doRequest()
+				case t.Chance(1, 8, "format"):
+					doFormat()
 				case len(outstanding) > 0 && t.Chance(1, 3, "cancel"):
 					doCancel()
 				default:
@@ -529,25 +603,32 @@ func run(rc *kernel.RunCtx, k *kernel.Kernel) map[string]any {
 		}
 		acts[t.Pick(ws, "action")].fn()
 	}
-	// drain: no more edits; let the server finish
-	for i := 0; i < 20000 && !rc.Failed() && !quiet(); i++ {
+	// drain: no more edits; let the server finish (an answer that arrives may make the editor
+	// send one more change: then drain again)
+	for round := 0; round < 8 && !rc.Failed(); round++ {
 		collect()
-		ps := k.ParkedList()
-		var p *kernel.Parked
-		for _, x := range ps {
-			if x.Name == "rd:S" && ioS.Avail() == 0 {
-				continue
+		if quiet() {
+			break
+		}
+		for i := 0; i < 20000 && !rc.Failed() && !quiet(); i++ {
+			collect()
+			ps := k.ParkedList()
+			var p *kernel.Parked
+			for _, x := range ps {
+				if x.Name == "rd:S" && ioS.Avail() == 0 {
+					continue
+				}
+				p = x
+				break
 			}
-			p = x
-			break
-		}
-		if p == nil {
-			break
-		}
-		if p.Name == "rd:S" {
-			k.Run(p, kernel.Decision{N: ioS.Avail()})
-		} else {
-			k.Run(p, kernel.Decision{})
+			if p == nil {
+				break
+			}
+			if p.Name == "rd:S" {
+				k.Run(p, kernel.Decision{N: ioS.Avail()})
+			} else {
+				k.Run(p, kernel.Decision{})
+			}
 		}
 	}
 	if !rc.Failed() {
